@@ -11,9 +11,7 @@ use std::time::Instant;
 
 /// canonical, sorted rendering of a metadata state
 pub fn canon(md: &Metadata) -> Result<String, String> {
-    let snap = md.snapshot();
-    let cs: ClusterState = bincode::deserialize(&snap).map_err(|e| format!("snapshot does not decode: {}", e))?;
-    Ok(canon_state(&cs))
+    decode(md).map(|cs| canon_state(&cs)).ok_or_else(|| "state not readable".to_string())
 }
 
 pub fn canon_state(cs: &ClusterState) -> String {
@@ -30,7 +28,22 @@ pub fn canon_state(cs: &ClusterState) -> String {
     format!("topics={:?} nodes={:?}", topics, nodes)
 }
 
+/// The state as the public accessors report it (NOT through snapshot(), which is itself under
+/// test in C20): topic states of every name the alphabets use, and the node address book.
 fn decode(md: &Metadata) -> Option<ClusterState> {
+    let mut cs = ClusterState::default();
+    for name in ["a", "b", "c", ""] {
+        if let Some(t) = md.get_topic_state(name) {
+            cs.topics.insert(name.to_string(), t);
+        }
+    }
+    for (id, addr) in md.all_node_addrs() {
+        cs.nodes.insert(id, addr);
+    }
+    Some(cs)
+}
+
+fn decode_snapshot(md: &Metadata) -> Option<ClusterState> {
     bincode::deserialize(&md.snapshot()).ok()
 }
 
@@ -117,7 +130,8 @@ pub fn alphabet(thorough: bool) -> Vec<Vec<u8>> {
             v.push(MetadataCmd::CreateTopic { name: name.into(), initial_leader: l });
         }
     }
-    let counts: Vec<u64> = if thorough { vec![0, 1, 2, u64::MAX] } else { vec![0, 1, 2] };
+    let _ = thorough;
+    let counts: Vec<u64> = vec![0, 1, 2, u64::MAX];
     for name in ["a", "b", "c"] {
         for l in 1..=3u64 {
             for c in counts.iter() {
@@ -299,7 +313,7 @@ pub fn check_c18(tier: &str) -> i32 {
     let t0 = Instant::now();
     let thorough = tier == "thorough";
     let alpha = alphabet(thorough);
-    let depth = if thorough { 7 } else { 5 };
+    let depth = if thorough { 6 } else { 4 };
     let b = bfs(&alpha, depth, if thorough { 900.0 } else { 40.0 }, &|_, _| None);
     let mut violation = b.violation.as_ref().map(|(h, m)| (h.iter().map(|c| describe(c)).collect::<Vec<_>>().join("; "), m.clone()));
     // byte strings on three representative states
@@ -360,10 +374,21 @@ pub fn check_c20a(tier: &str) -> i32 {
     let t0 = Instant::now();
     let thorough = tier == "thorough";
     let alpha = alphabet(false);
-    let depth = if thorough { 5 } else { 4 };
+    let depth = if thorough { 5 } else { 3 };
     let lock = alpha.clone();
     let per_state = move |hist: &[Vec<u8>], md: &Metadata| -> Option<String> {
-        // restore(snapshot()) into a fresh state machine reproduces the state exactly ...
+        // the snapshot describes the state the accessors report ...
+        match decode_snapshot(md) {
+            Some(cs) => {
+                let via_snapshot = canon_state(&cs);
+                let via_api = canon(md).unwrap_or_default();
+                if via_snapshot != via_api {
+                    return Some(format!("snapshot() encodes {} but the state machine holds {}", via_snapshot, via_api));
+                }
+            }
+            None => return Some("snapshot() does not decode as a cluster state".into()),
+        }
+        // ... restore(snapshot()) into a fresh state machine reproduces the state exactly ...
         let snap = md.snapshot();
         let fresh = Metadata::new();
         if let Err(e) = fresh.restore(&snap) {
